@@ -34,6 +34,8 @@ class Ctx:
         self.solver_time = 0.0
         self.vars = {}
         self.notes = []
+        self.known = []           # (symbol, numeral) pairs implied by the path condition
+        self._known_ids = set()
 
     # -- symbolic inputs
     def bvvar(self, name, bits):
@@ -56,6 +58,41 @@ class Ctx:
         if c is False:
             raise Infeasible()
         self.pc.append(c)
+        self._learn(c)
+
+    def _learn(self, c):
+        """Remember `symbol == numeral` facts so later tests on that symbol are decided without the solver."""
+        try:
+            if z3.is_eq(c) and c.num_args() == 2:
+                a, b = c.arg(0), c.arg(1)
+                if z3.is_bv_value(a):
+                    a, b = b, a
+                if z3.is_bv_value(b) and z3.is_const(a) and a.decl().kind() == z3.Z3_OP_UNINTERPRETED:
+                    if a.get_id() not in self._known_ids:
+                        self._known_ids.add(a.get_id())
+                        self.known.append((a, b))
+            elif z3.is_const(c) and z3.is_bool(c) and c.decl().kind() == z3.Z3_OP_UNINTERPRETED:
+                if c.get_id() not in self._known_ids:
+                    self._known_ids.add(c.get_id())
+                    self.known.append((c, TRUE))
+            elif z3.is_not(c):
+                a = c.arg(0)
+                if z3.is_const(a) and a.decl().kind() == z3.Z3_OP_UNINTERPRETED and a.get_id() not in self._known_ids:
+                    self._known_ids.add(a.get_id())
+                    self.known.append((a, FALSE))
+        except Exception:
+            pass
+
+    def _decide(self, c):
+        """Try to decide c from known equalities: True / False / None."""
+        if not self.known:
+            return None
+        r = z3.simplify(z3.substitute(c, *self.known))
+        if z3.is_true(r):
+            return True
+        if z3.is_false(r):
+            return False
+        return None
 
     def _sync(self):
         if self.synced < len(self.pc):
@@ -97,11 +134,25 @@ class Ctx:
             raise Infeasible()
         if len(cand) == 1:
             return cand[0]
+        if self.known:
+            cand2 = []
+            for i in cand:
+                d = self._decide(conds[i])
+                if d is True:
+                    return i
+                if d is None:
+                    cand2.append(i)
+            if not cand2:
+                raise Infeasible()
+            if len(cand2) == 1:
+                return cand2[0]
+            cand = cand2
         if self.pos < len(self.prefix):
             idx = self.prefix[self.pos]
             self.pos += 1
             self.decisions.append(idx)
             self.pc.append(conds[idx])
+            self._learn(conds[idx])
             return idx
         feas = []
         for i in cand:
@@ -117,6 +168,7 @@ class Ctx:
         self.prefix.append(first)
         if len(feas) > 1:
             self.pc.append(conds[first])
+        self._learn(conds[first])
         return first
 
     def branch(self, c):
@@ -141,6 +193,7 @@ class Ctx:
             self.pos += 1
             self.decisions.append(val)
             self.pc.append(x == val)
+            self._learn(x == val)
             return val
         vals = []
         self._sync()
@@ -173,6 +226,7 @@ class Ctx:
         self.prefix.append(first)
         if len(vals) > 1:
             self.pc.append(x == first)
+        self._learn(x == first)
         return first
 
     def must(self, c):
@@ -677,6 +731,7 @@ class Engine:
         self.listener_ty = listener_ty
         self.py_listeners = {}     # type name -> python object with .event(name, args)
         self.functions_entered = set()
+        self.call_hooks = {}       # MIR body name suffix -> fn(args)
         from . import stdlib
         self.std = stdlib
 
@@ -1198,6 +1253,13 @@ class Engine:
                 return
         t = self.resolve_call(path, fr.tsubst)
         if t.kind == 'mir':
+            if self.call_hooks:
+                for suf, hook in self.call_hooks.items():
+                    if t.body.name.endswith(suf):
+                        r = hook(args)
+                        if type(r) is tuple and r and r[0] == 'skip':
+                            self.finish_call(fr, dest, ret_bb, r[1])
+                            return
             fr.pending = (dest, ret_bb)
             stack.append(self.new_frame(t.body, args, t.tsubst if t.tsubst is not None else {}))
             return
